@@ -495,7 +495,9 @@ CWPairs(steps) == {pr \in CWProbed(steps) \X CWProbed(steps) : pr[1] < pr[2]}
 \* numbers it was given, as rationals - the harness's evaluator is not bound to 32 bits): the exact oracle moved off the lattice
 CWIdents == {"gl5", "gl5_coarse", "dc"}
 \* r = [args, f, a, b, steps, obs : Seq([err, dev, same_params, same_calls, res]), signs : Seq(<<o1, o2, sign>>)]
-\*   obs[i].res          probe: identity name -> <<units, sign>> residual (section 4), parameters = the twin's exact ones
+\*   obs[i].res          probe: identity name -> <<units, sign>> residual (section 4), parameters = the twin's exact ones, evaluated
+\*                       on the fresh-world object (once per twin) - the probe's battery contains the same calls and is bit-identical
+\*                       to it when same_calls
 \*   obs[i].dev          probe: largest deviation (ulp, rounded up) of a getter from the value given / derived from the given ones
 \*   obs[i].same_params  probe: the getters are bit-identical to those of the same object born in a fresh world
 \*   obs[i].same_calls   probe: so is the battery of calls
